@@ -283,4 +283,64 @@ def load (b : T) (data : List W) : T :=
 
 def reset (_b : T) : T := { data := [], set := 0 }
 
+/-! ### histories: the mutating calls of the API on two bit sets `A`, `B` (what the driver executes) -/
+
+inductive Reg where
+  | A | B
+deriving DecidableEq, Repr
+
+inductive Op where
+  | set (r : Reg) (i : Nat)
+  | clear (r : Reg) (i : Nat)
+  | flip (r : Reg) (i : Nat)
+  | setRange (r : Reg) (s e : Nat)
+  | clearRange (r : Reg) (s e : Nat)
+  | flipRange (r : Reg) (s e : Nat)
+  | load (r : Reg) (ws : List W)
+  /-- `r.Copy(q)` -/
+  | copy (r q : Reg)
+  /-- `r = q.Clone()` -/
+  | clone (r q : Reg)
+  | trim (r : Reg)
+  | ensure (r : Reg) (n : Nat)
+  | reset (r : Reg)
+  /-- `r.Data()` (trims `r`) -/
+  | data (r : Reg)
+  /-- `r.Load(q.Data())` -/
+  | loadData (r q : Reg)
+
+structure Pair where
+  a : T := {}
+  b : T := {}
+
+def Pair.get (p : Pair) : Reg → T
+  | .A => p.a
+  | .B => p.b
+def Pair.put (p : Pair) (r : Reg) (v : T) : Pair :=
+  match r with
+  | .A => { p with a := v }
+  | .B => { p with b := v }
+
+def applyOp (p : Pair) : Op → Pair
+  | .set r i => p.put r (setBit (p.get r) i)
+  | .clear r i => p.put r (clearBit (p.get r) i)
+  | .flip r i => p.put r (flipBit (p.get r) i)
+  | .setRange r s e => p.put r (setRange (p.get r) s e)
+  | .clearRange r s e => p.put r (clearRange (p.get r) s e)
+  | .flipRange r s e => p.put r (flipRange (p.get r) s e)
+  | .load r ws => p.put r (load (p.get r) ws)
+  | .copy r q => p.put r (copy (p.get r) (p.get q))
+  | .clone r q => p.put r (clone (p.get q))
+  | .trim r => p.put r (trim (p.get r))
+  | .ensure r n => p.put r (ensureCapacity (p.get r) n)
+  | .reset r => p.put r (reset (p.get r))
+  | .data r => p.put r (data (p.get r)).1
+  | .loadData r q =>
+    let d := data (p.get q)
+    let p := p.put q d.1
+    p.put r (load (p.get r) d.2)
+
+/-- the state after a history, starting from two zero-value bit sets -/
+def run (ops : List Op) : Pair := ops.foldl applyOp {}
+
 end BS
